@@ -69,6 +69,13 @@ type c18Run struct {
 	// Fops: what ANOTHER actor (no storage_clean lock) does to the storage just before call number At
 	// of this run (0 = Lock); Why/Race are the generator's labels
 	Fops []c18Fop `json:"fops,omitempty"`
+	// PFaults: Delete calls that take effect IN PART and then report an error (os.RemoveAll that removes some of
+	// what the key covers, then fails): the wrapper removes everything below the key except the last file (in key
+	// order) and the folders leading to it; a key with nothing below it is removed entirely
+	PFaults []int `json:"pfaults,omitempty"`
+	// Kill: the cleaner's process dies when this call begins (-1/0 = never): no further call has any effect, the
+	// lock is not released; afterwards the harness lets the lock go stale (FileStorage: lock file back-dated)
+	Kill int `json:"kill,omitempty"`
 }
 
 type c18Fop struct {
@@ -86,6 +93,11 @@ type c18Spec struct {
 	// AlignPhase: wait until the wall clock is 0.30-0.45 s into a second before materialising, so
 	// that thresholds on whole seconds (x509 NotAfter, expiresAt's +1 s) are >= 0.3 s away on both sides
 	AlignPhase bool `json:"align_phase,omitempty"`
+	// PreLock (FileStorage): state of locks/storage_clean.lock before the first run. "stale": left by a dead
+	// holder an hour ago (Lock removes it and proceeds); "live": a live holder keeps it (Lock waits until the
+	// context expires after LockTimeoutMs and CleanStorage returns without touching anything)
+	PreLock       string `json:"pre_lock,omitempty"`
+	LockTimeoutMs int    `json:"lock_timeout_ms,omitempty"`
 }
 
 // ---------------------------------------------------------------- logging wrapper
@@ -137,15 +149,33 @@ type c18Wrap struct {
 	// foreign: called at the beginning of call number idx (another actor acts on the back-end)
 	foreign  func(idx int)
 	inUnlock bool
+	// partial Deletes: partial(key) removes part of what key covers on the back-end and returns the keys it kept
+	pfaults map[int]bool
+	partial func(key string) []string
+	kept    map[int][]string
+	// death of the process
+	killAt      int
+	dead        bool
+	lockTimeout time.Duration
 }
+
+type c18KilledPanic struct{}
 
 var c18ErrInjected = errors.New("injected storage fault")
 
 func (w *c18Wrap) String() string { return fmt.Sprintf("c18wrap:%d", w.tid) }
 
 func (w *c18Wrap) begin() (idx int, fault bool) {
+	if w.dead {
+		// only reached from CleanStorage's deferred Unlock while the kill's panic unwinds: a dead process does nothing
+		return -1, true
+	}
 	idx = w.n
 	w.n++
+	if w.killAt > 0 && idx == w.killAt {
+		w.dead = true
+		panic(c18KilledPanic{})
+	}
 	if idx == w.cancelAt && w.cancel != nil {
 		w.cancel()
 	}
@@ -169,13 +199,22 @@ func (w *c18Wrap) Lock(ctx context.Context, name string) error {
 	if w.announce != nil {
 		w.announce()
 	}
-	err := w.inner.Lock(c18Live(ctx), name)
+	lctx := c18Live(ctx)
+	if w.lockTimeout > 0 {
+		var cancel context.CancelFunc
+		lctx, cancel = context.WithTimeout(lctx, w.lockTimeout)
+		defer cancel()
+	}
+	err := w.inner.Lock(lctx, name)
 	w.tLock = time.Now()
 	w.tr.add(c18Event{w.tid, 0, name, err == nil})
 	return err
 }
 
 func (w *c18Wrap) Unlock(ctx context.Context, name string) error {
+	if w.dead {
+		return c18ErrInjected
+	}
 	w.inUnlock = true
 	_, fault := w.begin()
 	w.tUnlock = time.Now()
@@ -230,6 +269,11 @@ func (w *c18Wrap) Delete(ctx context.Context, key string) error {
 		w.tr.add(c18Event{w.tid, 5, key, false})
 		return c18ErrInjected
 	}
+	if w.pfaults[idx] && w.partial != nil {
+		w.kept[idx] = w.partial(key)
+		w.tr.add(c18Event{w.tid, 5, key, false})
+		return c18ErrInjected
+	}
 	if w.efaults[idx] {
 		w.inner.Delete(c18Live(ctx), key)
 		w.tr.add(c18Event{w.tid, 5, key, false})
@@ -278,7 +322,11 @@ func c18NewMat() *c18Mat {
 	if err != nil {
 		panic(err)
 	}
-	kp, _ := certmagic.PEMEncodePrivateKey(k)
+	der, err := x509.MarshalECPrivateKey(k) // standard library only: nothing of the code under test shapes the material
+	if err != nil {
+		panic(err)
+	}
+	kp := pem.EncodeToMemory(&pem.Block{Type: "EC PRIVATE KEY", Bytes: der})
 	return &c18Mat{ca: doubles.NewCA("C18 harness CA"), pub: &k.PublicKey, keyPEM: kp}
 }
 
@@ -399,6 +447,36 @@ type c18Backend interface {
 	// (ok = false: the Store fails -- a directory in the way, a file where a directory is needed -- nothing happens)
 	fput(key string, val []byte) (newDirs []string, ok bool)
 	fdel(key string)
+	// fpartial removes what key covers except the last file below it (and the folders leading to it); returns the
+	// keys that survive (nothing below key: everything goes)
+	fpartial(key string) []string
+}
+
+// c18Partial: which of the keys at or below key survive a partial Delete, given the snapshot
+func c18Partial(snap map[string]c18Node, key string) (keep []string, remove []string) {
+	var files, all []string
+	for k, n := range snap {
+		if k == key || strings.HasPrefix(k, key+"/") {
+			all = append(all, k)
+			if !n.Dir && k != key {
+				files = append(files, k)
+			}
+		}
+	}
+	sort.Strings(files)
+	sort.Strings(all)
+	if len(files) == 0 {
+		return nil, all
+	}
+	last := files[len(files)-1]
+	for _, k := range all {
+		if k == last || strings.HasPrefix(last, k+"/") {
+			keep = append(keep, k)
+		} else {
+			remove = append(remove, k)
+		}
+	}
+	return keep, remove
 }
 
 type c18MemBE struct{ b *doubles.MemBackend }
@@ -417,6 +495,13 @@ func (m *c18MemBE) fput(k string, v []byte) ([]string, bool) {
 	return nil, true
 }
 func (m *c18MemBE) fdel(k string)                    { m.b.Handle("c18-foreign").Delete(context.Background(), k) }
+func (m *c18MemBE) fpartial(key string) []string {
+	keep, remove := c18Partial(m.snapshot(), key)
+	for _, k := range remove {
+		m.fdel(k)
+	}
+	return keep
+}
 func (m *c18MemBE) snapshot() map[string]c18Node {
 	out := map[string]c18Node{}
 	for _, k := range m.b.Keys() {
@@ -457,6 +542,24 @@ func (f *c18FsBE) fput(k string, v []byte) (newDirs []string, ok bool) {
 	return newDirs, true
 }
 func (f *c18FsBE) fdel(k string) { os.RemoveAll(filepath.Join(f.dir, filepath.FromSlash(k))) }
+func (f *c18FsBE) fpartial(key string) []string {
+	keep, remove := c18Partial(f.snapshot(), key)
+	for i := len(remove) - 1; i >= 0; i-- { // children before their folders
+		os.Remove(filepath.Join(f.dir, filepath.FromSlash(remove[i])))
+	}
+	return keep
+}
+
+const c18LockFile = "locks/storage_clean.lock"
+
+// writeLock puts a lock file for storage_clean in place whose holder refreshed it age ago
+func (f *c18FsBE) writeLock(age time.Duration) {
+	t := time.Now().Add(-age)
+	b, _ := json.Marshal(map[string]any{"created": t, "updated": t})
+	p := filepath.Join(f.dir, filepath.FromSlash(c18LockFile))
+	os.MkdirAll(filepath.Dir(p), 0o700)
+	os.WriteFile(p, b, 0o644)
+}
 func (f *c18FsBE) snapshot() map[string]c18Node {
 	out := map[string]c18Node{}
 	filepath.Walk(f.dir, func(p string, info os.FileInfo, err error) error {
@@ -465,6 +568,9 @@ func (f *c18FsBE) snapshot() map[string]c18Node {
 		}
 		rel, _ := filepath.Rel(f.dir, p)
 		k := filepath.ToSlash(rel)
+		if k == c18LockFile {
+			return nil // the Locker's own state, not Storage content
+		}
 		if info.IsDir() {
 			out[k] = c18Node{Dir: true}
 		} else {
@@ -483,6 +589,8 @@ type c18RunObs struct {
 	T0, T1 time.Time
 	Res    int
 	Err    string
+	Killed int              // call number at which the process died (0 = it did not)
+	Kept   map[int][]string // partial Deletes: call number -> surviving keys
 }
 
 func c18ResClass(err error) int {
@@ -555,6 +663,14 @@ func (m *c18Mat) execute(spec c18Spec) *c18Exec {
 	}
 	ex := &c18Exec{spec: spec, started: now, fops: map[int][]c18FopObs{}}
 	ex.before = be.snapshot()
+	if fb, ok := be.(*c18FsBE); ok {
+		switch spec.PreLock {
+		case "stale":
+			fb.writeLock(time.Hour)
+		case "live":
+			fb.writeLock(0)
+		}
+	}
 	tr := &c18Trace{}
 	obs := make([]c18RunObs, len(spec.Runs))
 	runOne := func(i int, w *c18Wrap) {
@@ -565,23 +681,53 @@ func (m *c18Mat) execute(spec c18Spec) *c18Exec {
 		opts := certmagic.CleanStorageOptions{Logger: zap.NewNop(), InstanceID: r.Inst, Interval: time.Duration(r.Interval),
 			OCSPStaples: r.OCSP, ExpiredCerts: r.Certs, ExpiredCertGracePeriod: time.Duration(r.Grace)}
 		t0 := time.Now()
-		err := certmagic.CleanStorage(ctx, w, opts)
+		var err error
+		killed := 0
+		func() {
+			defer func() {
+				if p := recover(); p != nil {
+					if _, ok := p.(c18KilledPanic); !ok {
+						panic(p)
+					}
+					killed = w.killAt
+				}
+			}()
+			err = certmagic.CleanStorage(ctx, w, opts)
+		}()
 		t1 := time.Now()
+		if killed > 0 {
+			// the process is dead; an hour passes: its lock file is no longer refreshed (the heartbeat goroutine of
+			// this process stops at its next wake-up because the file's "created" is no longer the one it wrote)
+			if fb, ok := be.(*c18FsBE); ok {
+				fb.writeLock(time.Hour)
+			}
+		}
 		if !w.tLock.IsZero() {
 			t0 = w.tLock // every clock reading of the run lies between Lock's return and Unlock's call
 		}
 		if !w.tUnlock.IsZero() {
 			t1 = w.tUnlock
 		}
-		o := c18RunObs{Tid: i, T0: t0, T1: t1, Res: c18ResClass(err)}
+		o := c18RunObs{Tid: i, T0: t0, T1: t1, Res: c18ResClass(err), Killed: killed, Kept: w.kept}
 		if err != nil {
 			o.Err = err.Error()
+		}
+		if killed > 0 {
+			o.Res, o.Err = 9, "killed"
 		}
 		obs[i] = o
 	}
 	mk := func(i int) *c18Wrap {
 		r := spec.Runs[i]
-		w := &c18Wrap{inner: be.storage(), tid: i, tr: tr, faults: map[int]bool{}, efaults: map[int]bool{}, cancelAt: r.Cancel, gateAt: -1}
+		w := &c18Wrap{inner: be.storage(), tid: i, tr: tr, faults: map[int]bool{}, efaults: map[int]bool{}, cancelAt: r.Cancel, gateAt: -1,
+			pfaults: map[int]bool{}, kept: map[int][]string{}, partial: be.fpartial,
+			lockTimeout: time.Duration(spec.LockTimeoutMs) * time.Millisecond}
+		for _, f := range r.PFaults {
+			w.pfaults[f] = true
+		}
+		if spec.Backend == "fs" { // the double's lock does not expire: a dead holder would block the next cleaner for ever
+			w.killAt = r.Kill
+		}
 		for _, f := range r.Faults {
 			w.faults[f] = true
 		}
@@ -650,6 +796,9 @@ func (m *c18Mat) execute(spec c18Spec) *c18Exec {
 			}
 			runOne(i, mk(i))
 		}
+	}
+	if fb, ok := be.(*c18FsBE); ok && spec.PreLock == "live" {
+		os.Remove(filepath.Join(fb.dir, filepath.FromSlash(c18LockFile)))
 	}
 	ex.after = be.snapshot()
 	ex.trace = append([]c18Event(nil), tr.evs...)
@@ -765,6 +914,13 @@ func (ex *c18Exec) encode() (wire string, obs map[string]any, feats map[string]s
 			id(fo.Key)
 		}
 	}
+	for _, r := range ex.runs {
+		for _, ks := range r.Kept {
+			for _, k := range ks {
+				id(k)
+			}
+		}
+	}
 	// value table: distinct byte strings of both snapshots; fresh = not among the initial values
 	type val struct {
 		fresh bool
@@ -872,8 +1028,12 @@ func (ex *c18Exec) encode() (wire string, obs map[string]any, feats map[string]s
 		rs := ex.spec.Runs[r.Tid]
 		e.Int(r.Tid).Z(rs.Interval).Bool(rs.OCSP).Bool(rs.Certs).Z(rs.Grace)
 		pstr(rs.Inst)
-		e.Len(len(rs.Faults))
-		for _, f := range rs.Faults {
+		faults := rs.Faults
+		if ex.spec.PreLock == "live" && ex.spec.Backend == "fs" {
+			faults = append([]int{0}, faults...) // a live holder for longer than the caller waits: Lock fails
+		}
+		e.Len(len(faults))
+		for _, f := range faults {
 			e.Int(f)
 		}
 		e.Len(len(rs.EFaults))
@@ -898,6 +1058,23 @@ func (ex *c18Exec) encode() (wire string, obs map[string]any, feats map[string]s
 			default:
 				e.Int(0).Int(id(fo.Key)).Int(vidx[sha256.Sum256(fo.Val)])
 			}
+		}
+		var pidx []int
+		for i := range r.Kept {
+			pidx = append(pidx, i)
+		}
+		sort.Ints(pidx)
+		e.Len(len(pidx))
+		for _, i := range pidx {
+			e.Int(i).Len(len(r.Kept[i]))
+			for _, k := range r.Kept[i] {
+				e.Int(id(k))
+			}
+		}
+		if r.Killed > 0 {
+			e.Bool(true).Int(r.Killed)
+		} else {
+			e.Bool(false)
 		}
 	}
 	e.Len(len(ex.trace))
@@ -1057,6 +1234,9 @@ func (g *c18Gen) site(items *[]c18Item, hist func(string), backend, issuer, site
 	case "keydir": // X.key is a folder
 		add(base+".crt", "cert", g.certOff(g.pick("valid", "expired_ge_grace"), grace), "", "keydir")
 		add(base+".key/inner.pem", "raw", 0, "@key", "")
+		if g.r.Intn(2) == 0 { // two files below: a Delete of X.key can take effect in part
+			add(base+".key/sub/other.pem", "raw", 0, "@key", "")
+		}
 		add(base+".json", "raw", 0, `{}`, "")
 	}
 }
@@ -1492,6 +1672,52 @@ func c18Corpus() []struct {
 			spec  c18Spec
 		}{"corpus_record_effect_then_error", c18Spec{Backend: "fs", Items: one, Runs: []c18Run{r3, r4}}})
 	}
+	// a cleaner killed while it holds the lock (FileStorage): run 1 dies when its call 6 begins (X.crt deleted, X.key and
+	// X.json not yet); its lock file goes stale; run 2 removes the stale lock and cleans what it finds (the orphans stay:
+	// nothing says they are expired). Calls of run 1: 0 Lock, 1 List certificates, 2 List iss, 3 List site, 4 Load crt,
+	// 5 Delete crt, 6 Delete key ...
+	{
+		its := append(full("iss", "dead.example", -30*day), full("iss", "live.example", 30*day)...)
+		its = append(its, c18Item{Key: "ocsp/a-2", Kind: "staple", Off: -3600}, c18Item{Key: "acme/ca/users/u/u.key", Kind: "raw", Text: "@key"})
+		r1 := c18Run{Certs: true, Grace: 0, Cancel: -1, Inst: "dies", Kill: 6}
+		r2 := c18Run{Certs: true, OCSP: true, Grace: 0, Cancel: -1, Inst: "next", Interval: int64(2 * time.Hour)}
+		out = append(out, struct {
+			class string
+			spec  c18Spec
+		}{"corpus_killed_then_cleaned", c18Spec{Backend: "fs", Items: its, Runs: []c18Run{r1, r2}}})
+		// killed when its Unlock begins (call 12 here: ... 8 List site, 9 Stat, 10 Delete site, 11 Store, 12 Unlock):
+		// everything done and recorded, the lock never released; the next cleaner gets the lock after staleness and,
+		// within the interval, does nothing
+		one := full("iss", "dead.example", -30*day)
+		r3 := c18Run{Certs: true, Grace: 0, Cancel: -1, Inst: "dies", Kill: 12}
+		out = append(out, struct {
+			class string
+			spec  c18Spec
+		}{"corpus_killed_before_unlock", c18Spec{Backend: "fs", Items: one, Runs: []c18Run{r3, r2}}})
+		// a stale lock file of a holder that died an hour ago is there before the first cleaning: it proceeds
+		out = append(out, struct {
+			class string
+			spec  c18Spec
+		}{"corpus_stale_lock_at_start", c18Spec{Backend: "fs", Items: its, Runs: []c18Run{r2}, PreLock: "stale"}})
+		// a live holder keeps the lock for longer than the caller waits: CleanStorage returns an error, nothing is touched
+		out = append(out, struct {
+			class string
+			spec  c18Spec
+		}{"corpus_live_lock_held", c18Spec{Backend: "fs", Items: its, Runs: []c18Run{r2}, PreLock: "live", LockTimeoutMs: 300}})
+	}
+	// a Delete that takes effect in part: X.key is a folder with two files; Delete(X.key) (call 6) removes one, then
+	// fails; the run goes on (X.json goes), the site folder is not empty and stays
+	for _, be := range []string{"fs", "mem"} {
+		b := "certificates/iss/dead.example/dead.example"
+		its := []c18Item{{Key: b + ".crt", Kind: "cert", Off: -30 * day}, {Key: b + ".key/inner/a.pem", Kind: "raw", Text: "@key"},
+			{Key: b + ".key/inner/b.pem", Kind: "raw", Text: "@key"}, {Key: b + ".json", Kind: "raw", Text: "{}"},
+			{Key: "acme/ca/users/u/u.key", Kind: "raw", Text: "@key"}}
+		r := c18Run{Certs: true, Grace: 0, Cancel: -1, Inst: "corpus", PFaults: []int{6}}
+		out = append(out, struct {
+			class string
+			spec  c18Spec
+		}{"corpus_partial_delete", c18Spec{Backend: be, Items: its, Runs: []c18Run{r}}})
+	}
 	// two concurrent cleaners, second one must wait and then skip / clean again
 	items := append(full("iss", "dead.example", -30*day), full("iss", "live.example", 30*day)...)
 	items = append(items, c18Item{Key: "ocsp/a-2", Kind: "staple", Off: -3600})
@@ -1587,8 +1813,23 @@ func runC18(tier string, seed int64, outdir string, replay string) error {
 				}
 			}
 		}
+		killedAny, partialAny := false, false
+		for _, r := range ex.runs {
+			if r.Killed > 0 {
+				killedAny = true
+			}
+			if len(r.Kept) > 0 {
+				partialAny = true
+			}
+		}
 		desc := map[string]any{"class": class, "backend": spec.Backend, "runs": len(spec.Runs), "concurrent": spec.Concurrent,
-			"foreign_ops": nForeign, "race_window": race}
+			"foreign_ops": nForeign, "race_window": race, "killed": killedAny, "partial_delete": partialAny}
+		if killedAny {
+			w.Hist("killed=true")
+		}
+		if partialAny {
+			w.Hist("partial_delete=true")
+		}
 		if nForeign > 0 {
 			w.Hist(fmt.Sprintf("foreign_race_window=%v", race))
 		}
@@ -1633,7 +1874,7 @@ func runC18(tier string, seed int64, outdir string, replay string) error {
 	g := &c18Gen{r: rand.New(rand.NewSource(seed))}
 	for i := 0; i < n; i++ {
 		sp := g.spec(w.Hist)
-		if len(sp.Runs[0].Faults) == 0 && sp.Runs[0].Cancel < 0 && !sp.Concurrent && g.r.Intn(6) == 0 {
+		if len(sp.Runs[0].Faults) == 0 && sp.Runs[0].Cancel < 0 && !sp.Concurrent && g.r.Intn(4) == 0 {
 			// a fault (or the cancellation) aimed at a call of a chosen kind of the fault-free execution
 			dry := mat.execute(sp)
 			var own []c18Event
@@ -1667,6 +1908,42 @@ func runC18(tier string, seed int64, outdir string, replay string) error {
 					}
 				}
 				byKind[k] = append(byKind[k], j)
+			}
+			special := g.r.Intn(4)
+			var dels []int
+			for j, ev := range own {
+				if ev.Kind == 5 {
+					dels = append(dels, j)
+				}
+			}
+			if special == 0 && sp.Backend == "fs" && len(own) >= 3 && len(sp.Runs) == 1 {
+				// the process dies when one of its calls begins; the next cleaning follows after the lock went stale
+				sp.Runs[0].Kill = 1 + g.r.Intn(len(own)-1)
+				r2 := sp.Runs[0]
+				r2.Kill, r2.Inst, r2.OCSP, r2.Certs = 0, "after-kill", true, true
+				r2.Interval = []int64{0, 2 * int64(time.Hour)}[g.r.Intn(2)]
+				sp.Runs = append(sp.Runs, r2)
+				w.Hist("env=kill")
+				kinds = nil
+			} else if special == 1 && len(dels) > 0 {
+				// a Delete that takes effect in part; prefer one whose key has something below it
+				var deep []int
+				for _, j := range dels {
+					for _, it := range sp.Items {
+						if strings.HasPrefix(it.Key, own[j].Key+"/") {
+							deep = append(deep, j)
+							break
+						}
+					}
+				}
+				if len(deep) > 0 {
+					dels = deep
+					w.Hist("env=pfault:folder")
+				} else {
+					w.Hist("env=pfault:file")
+				}
+				sp.Runs[0].PFaults = []int{dels[g.r.Intn(len(dels))]}
+				kinds = nil
 			}
 			if len(kinds) > 0 {
 				k := kinds[g.r.Intn(len(kinds))]
